@@ -93,7 +93,16 @@ public:
 
     void bvisit(const HadamardProduct &x)
     {
-        check_vector(x.get_factors());
+        // An elementwise product of symmetric matrices is symmetric; a
+        // non-symmetric factor decides nothing (I o A is diagonal).
+        for (auto &elt : x.get_factors()) {
+            elt->accept(*this);
+            if (not is_true(is_symmetric_)) {
+                is_symmetric_ = tribool::indeterminate;
+                return;
+            }
+        }
+        is_symmetric_ = tribool::tritrue;
     }
 
     tribool apply(const MatrixExpr &s)
